@@ -12,8 +12,9 @@ Dynamic tie  real `ModelTrainer(cfg)` + `.train()` runs, one fresh subprocess ea
              (file, written-by-constructor?, key present?) / chunk removals / outcome must equal the
              model's trace (vm_compute on the GENERATED term) for the cell's flags.
 Oracle    the property itself on the real run: completes; no file under the output tree contains
-          the key at ANY boundary; initial/final config contents; ckpt iff requested; no chunk
-          files when deletion is requested.
+          the key at ANY boundary; initial/final config contents; ckpt iff requested (save_ckpt and the
+          ModelCheckpoint options ask for a file: save_top_k != 0 or save_last); no chunk files when
+          deletion is requested.
 
 The check works in both states of the tree: checker true -> the instantiated theorem is compiled;
 checker false -> the leaking / failing cells are computed from the generated term, replayed on the
@@ -49,15 +50,17 @@ SEL_REUSE = "reuse_chunks_with_unset_part_names"
 SEL_REUSE_BU = "reuse_np_chunks_bottomup_labels_none"
 
 
-def outside_reuse_domain(spec) -> str | None:
-    """chunk re-use cells on which the unchanged code is known to fail (findings F131 / F132, replayed from
-    the corpus on every run): kept out of the generated grid and of the model correspondence"""
+def reuse_finding_domain(spec) -> str | None:
+    """the cells of the repaired findings F131 (373d053) / F132 (8b62cf0).  Since both are fixed in core.REPO these
+    cells are ordinary cells of the grid and of the model correspondence (round 4); the function only NAMES the
+    selector of an oracle failure that has the shape of one of the two defects (a `fixed:` line suppresses nothing,
+    so a regression is reported as a VIOLATION)"""
     if not spec.get("use_existing"):
         return None
-    if spec["model_type"] != "centroid" and not (spec.get("opts") or {}).get("explicit_names"):
-        return SEL_REUSE
     if spec["model_type"] == "bottomup" and spec["framework"] == "torch_dataset_np_chunks":
         return SEL_REUSE_BU
+    if spec["model_type"] != "centroid" and not (spec.get("opts") or {}).get("explicit_names"):
+        return SEL_REUSE
     return None
 MODEL_TYPES = ["single_instance", "centroid", "centered_instance", "bottomup"]
 FRAMEWORKS = ["torch_dataset", "torch_dataset_np_chunks", "litdata"]
@@ -74,6 +77,9 @@ CHECKERS = [
     ("final_config_contract", "final_config_contract generated"),
     ("ckpt_contract", "ckpt_contract generated"),
     ("chunk_guard_contract", "chunk_guard_contract generated"),
+    ("mk_guard_contract", "mk_guard_contract generated"),
+    ("chunk_contract", "chunk_contract generated"),
+    ("valid_cells_complete", "valid_cells_complete generated"),
     ("rm_train_all_paths", "rm_all_paths no_excuse RmTrain generated"),
     ("rm_val_all_paths", "rm_all_paths no_excuse RmVal generated"),
     ("rm_lit_train_all_paths", "rm_all_paths no_excuse RmLitTrain generated"),
@@ -102,19 +108,39 @@ def cell_of(spec) -> dict:
             "delete": bool(spec["delete_chunks"]), "structured": bool(spec["structured"]),
             "offline": spec.get("wandb_mode", "offline") == "offline", "existing": bool(spec.get("use_existing")),
             "memfb": bool(spec.get("mem_fallback")),
+            "topk0": save_top_k_of(spec) == 0, "savelast": save_last_of(spec) is True,
             # derived
             "np": spec["framework"] == "torch_dataset_np_chunks"}
 
 
-CELL_FIELDS = ("wandb", "ckpt", "fw", "delete", "structured", "offline", "existing", "memfb")
+CELL_FIELDS = ("wandb", "ckpt", "fw", "delete", "structured", "offline", "existing", "memfb", "topk0", "savelast")
+SAVE_TOP_K = [0, 1, 2, -1]
+SAVE_LAST = [None, True, False]
+
+
+def save_top_k_of(spec):
+    """`trainer_config.model_ckpt.save_top_k` of the run (the worker's default is 1)"""
+    return (spec.get("opts") or {}).get("save_top_k", 1)
+
+
+def save_last_of(spec):
+    """`trainer_config.model_ckpt.save_last` of the run (the worker's default is True)"""
+    return (spec.get("opts") or {}).get("save_last", True)
+
+
+def ckpt_requested(spec) -> bool:
+    """mirror of EffectIR.ckpt_req = "checkpointing is on": save_ckpt AND the ModelCheckpoint options ask for at
+    least one file (a top-k file unless save_top_k == 0; last.ckpt when save_last).  save_top_k = 0 with save_last
+    None / False is the documented way of asking for zero checkpoints."""
+    return bool(spec["save_ckpt"]) and (save_top_k_of(spec) != 0 or save_last_of(spec) is True)
 
 
 def cell_term(c: dict, mode: int) -> str:
     b = core.cbool
     return ("({| c_wandb := %s; c_ckpt := %s; c_fw := %s; c_delete := %s; c_structured := %s; c_offline := %s; "
-            "c_existing := %s; c_memfb := %s |}, %d)"
+            "c_existing := %s; c_memfb := %s; c_topk0 := %s; c_savelast := %s |}, %d)"
             % (b(c["wandb"]), b(c["ckpt"]), c["fw"], b(c["delete"]), b(c["structured"]), b(c["offline"]),
-               b(c["existing"]), b(c["memfb"]), mode))
+               b(c["existing"]), b(c["memfb"]), b(c["topk0"]), b(c["savelast"]), mode))
 
 
 def cell_key(c: dict, mode: int = 0):
@@ -124,7 +150,7 @@ def cell_key(c: dict, mode: int = 0):
 def all_cells():
     return [dict(zip(CELL_FIELDS, v)) for v in itertools.product(
         (False, True), (False, True), ("KMem", "KNp", "KLit"), (False, True), (False, True), (False, True),
-        (False, True), (False, True))]
+        (False, True), (False, True), (False, True), (False, True))]
 
 
 def valid_cell(c: dict) -> bool:
@@ -212,7 +238,7 @@ def full_grid():
         for f in FRAMEWORKS:
             for w, k, st, d in itertools.product((False, True), repeat=4):
                 for wm in WANDB_MODES:
-                    reuse_ok = f == "litdata" or (f == "torch_dataset_np_chunks" and m != "bottomup")   # F132
+                    reuse_ok = f != "torch_dataset"        # every chunk framework, every model type (F132 is fixed)
                     for x in ((False, True) if reuse_ok else (False,)):
                         for mf in ((False, True) if f == "torch_dataset" else (False,)):
                             out.append(mk_spec(m, f, w, k, st, d, wandb_mode=wm, use_existing=x, mem_fallback=mf))
@@ -244,18 +270,17 @@ def covering_subset(rng, grid, n_target):
 
 def draw_opts(rng, spec) -> dict:
     """nuisance options of a valid configuration that must not change the observable behaviour
-    (about half of the runs keep the defaults of round 1)"""
-    if rng.random() < 0.4:
-        return {}
+    (about half of the runs keep the defaults of round 1).  `save_top_k` / `save_last` are NOT nuisance options
+    (round 4): they are factors of the grid, assigned by `assign_ckpt_options`."""
     o = {}
+    if rng.random() < (0.5 if spec.get("use_existing") else 0.25):
+        o["explicit_names"] = True       # head part_names / edges spelled out instead of None (= from the labels)
+    if rng.random() < 0.4:
+        return o
     if rng.random() < 0.4:
         o["early_stopping"] = True
     if rng.random() < 0.4:
         o["steps_per_epoch"] = rng.choice([None, 2])
-    if rng.random() < 0.4:
-        o["save_top_k"] = rng.choice([2, -1])
-    if rng.random() < 0.4:
-        o["save_last"] = rng.choice([False, None])
     if rng.random() < 0.3:
         o["max_epochs"] = 2
     if rng.random() < 0.4:
@@ -269,6 +294,39 @@ def draw_opts(rng, spec) -> dict:
     if not spec["structured"] and rng.random() < 0.2:
         o["strategy"] = "auto"
     return o
+
+
+def assign_ckpt_options(rng, specs):
+    """save_top_k in {0, 1, 2, -1} x save_last in {None, True, False}: the 12 combinations are dealt out in a seeded
+    order, first over the runs with save_ckpt on (where they decide whether a checkpoint is written), then over
+    the others (where no checkpoint may appear whatever they say)"""
+    combos = [(k, l) for k in SAVE_TOP_K for l in SAVE_LAST]
+    rng.shuffle(combos)
+    order = [s for s in specs if s["save_ckpt"]] + [s for s in specs if not s["save_ckpt"]]
+    for i, s in enumerate(order):
+        k, l = combos[i % len(combos)]
+        s.setdefault("opts", {}).update({"save_top_k": k, "save_last": l})
+
+
+# rejection sites of the trainer source: the data-dependent (opaque) conditions that may guard an explicit
+# `raise` (review finding 3).  A rejection guarded by anything else is a new way of refusing a configuration and
+# is reported; rejections guarded by named flags only are judged in Coq (`valid_cells_complete`).
+REJECTION_GUARDS = (
+    r"^self\.(train|val)_np_chunks_path\.(exists|is_dir)\(\)",      # chunks to re-use must exist ...
+    r"^any\(self\.(train|val)_np_chunks_path\.glob\('\*\.npz'\)\)",   # ... and hold npz files
+    r"^self\.model_type == '(single_instance|centered_instance|centroid|bottomup)'",   # model-type chains
+    r"^cfg_profiler (is not None|in profilers)",                   # unknown profiler name
+)
+
+
+def unknown_rejection_sites(info) -> list:
+    import re
+    out = []
+    for r in info.get("raise_sites") or []:
+        bad = [src for src in r.get("opaque_src", []) if not any(re.match(p, src) for p in REJECTION_GUARDS)]
+        if bad:
+            out.append({"line": r["line"], "guarded_by": bad})
+    return out
 
 
 # --------------------------------------------------------------------------
@@ -330,47 +388,63 @@ def obligations_text(vals: dict) -> str:
         thm("gen_final_config_after_last_mutation",
             "forall E, fl E RankZero = true -> no_faults E -> result E generated = Ok ->\n"
             "  exists p1 a p2, trace E generated = p1 ++ a :: p2 /\\ is_write_to FTraining a = true /\\\n"
-            "                  Forall (fun b => is_set b = false) p2",
+            "                  Forall (fun b => is_set b = false /\\ is_reload b = false) p2",
             "exact (final_after_mutation_lemma generated ob_final_config_contract).")
         if val("run_id_contract", ex["run_id_contract"]):
             thm("gen_final_config_records_run_id",
                 "forall E, fl E RankZero = true -> fl E UseWandb = true -> no_faults E -> result E generated = Ok ->\n"
                 "  exists p1 a p2 b p3, trace E generated = p1 ++ a :: p2 ++ b :: p3 /\\\n"
                 "    is_set_path run_id_path a = true /\\ is_write_to FTraining b = true /\\\n"
-                "    Forall (fun c => is_set c = false) p3",
+                "    Forall (fun c => is_set c = false /\\ is_reload c = false) p3",
                 "exact (final_config_records_run_id_lemma generated ob_final_config_contract ob_run_id_contract).")
     if val("final_config_contract_faults", ex["final_config_contract_faults"]):
         thm("gen_final_config_under_faults",
             "forall E, fl E RankZero = true -> result E generated <> ExnInvalid ->\n"
             "  exists p1 a p2, trace E generated = p1 ++ a :: p2 /\\ is_write_to FTraining a = true /\\\n"
-            "                  Forall (fun b => is_set b = false) p2",
+            "                  Forall (fun b => is_set b = false /\\ is_reload b = false) p2",
             "exact (final_config_under_faults_lemma generated ob_final_config_contract_faults).")
     if val("ckpt_contract", ex["ckpt_contract"]):
+        # the EXACT condition: ckpt_req = save_ckpt /\ (save_top_k <> 0 \/ save_last)
         thm("gen_no_ckpt_unless_requested",
-            "forall E, fl E SaveCkpt = false -> Forall (fun a => is_write_to FCkpt a = false) (trace E generated)",
+            "forall E, ckpt_req (fl E) = false -> Forall (fun a => is_write_to FCkpt a = false) (trace E generated)",
             "exact (no_ckpt_unless_requested_lemma generated ob_ckpt_contract).")
-        thm("gen_ckpt_written_when_requested",
-            "forall E, fl E SaveCkpt = true -> no_faults E -> result E generated = Ok ->\n"
+        thm("gen_ckpt_written_when_ckpt_req",
+            "forall E, ckpt_req (fl E) = true -> no_faults E -> result E generated = Ok ->\n"
             "  exists a, In a (trace E generated) /\\ is_write_to FCkpt a = true",
             "exact (ckpt_written_when_requested_lemma generated ob_ckpt_contract).")
     if val("chunk_guard_contract", ex["chunk_guard_contract"]):
         thm("gen_no_chunk_deletion_unless_requested",
             "forall E t, rm_req (fl E) t = false -> Forall (fun a => is_rm t a = false) (trace E generated)",
             "exact (no_rm_unless_requested_any_lemma generated ob_chunk_guard_contract).")
+    if val("mk_guard_contract", ex["mk_guard_contract"]):
+        thm("gen_no_chunk_creation_unless_in_use",
+            "forall E t, chunks_in_use (fl E) t = false -> Forall (fun a => is_mk t a = false) (trace E generated)",
+            "exact (no_mk_unless_in_use_lemma generated ob_mk_guard_contract).")
     all_rm = True
     for t, nm in RM_TARGETS:
+        # the removal of t comes AFTER the last creation / use of chunks of kind t (not just "some removal occurs")
         if val(nm, ex[nm]):
             thm(f"gen_{nm}",
                 f"forall E, valid_cell (fl E) = true -> rm_req (fl E) {t} = true ->\n"
-                f"  result E generated <> ExnInvalid -> exists a, In a (trace E generated) /\\ is_rm {t} a = true",
-                f"exact (chunk_deletion_on_all_paths_lemma {t} generated ob_{nm}).")
+                f"  result E generated <> ExnInvalid ->\n"
+                f"  exists p1 a p2, trace E generated = p1 ++ a :: p2 /\\ is_rm {t} a = true /\\\n"
+                f"                  Forall (fun b => is_mk {t} b = false) p2",
+                f"exact (chunk_deletion_after_last_creation_lemma {t} generated ob_{nm}).")
         else:
             all_rm = False
             if val(nm + "_unless_F15", ex[nm + "_unless_F15"]):
                 thm(f"gen_{nm}_partial",
                     f"forall E, valid_cell (fl E) = true -> rm_req (fl E) {t} = true -> sel_F15 (fl E) = false ->\n"
-                    f"  result E generated <> ExnInvalid -> exists a, In a (trace E generated) /\\ is_rm {t} a = true",
-                    f"exact (chunk_deletion_on_all_paths_unless_F15_lemma {t} generated ob_{nm}_unless_F15).")
+                    f"  result E generated <> ExnInvalid ->\n"
+                    f"  exists p1 a p2, trace E generated = p1 ++ a :: p2 /\\ is_rm {t} a = true /\\\n"
+                    f"                  Forall (fun b => is_mk {t} b = false) p2",
+                    f"exact (chunk_deletion_after_last_creation_unless_F15_lemma {t} generated ob_{nm}_unless_F15).")
+    if val("chunk_contract", ex["chunk_contract"]):
+        thm("gen_no_chunks_at_exit_when_deletion_requested",
+            "forall E, valid_cell (fl E) = true -> fl E DeleteChunks = true -> result E generated <> ExnInvalid ->\n"
+            "  forall t s0, (chunks_in_use (fl E) t = false -> s0 = false) ->\n"
+            "  chunks_present s0 t (trace E generated) = false",
+            "exact (no_chunks_at_exit_lemma generated ob_chunk_contract).")
     if not all_rm and val("has_rm_missing_cell", ex["has_rm_missing_cell"]):
         thm("gen_chunks_left_behind_refuted", "exists E, chunks_left_behind generated E",
             "exact (rm_missing_cell_exists generated ob_has_rm_missing_cell).")
@@ -380,6 +454,12 @@ def obligations_text(vals: dict) -> str:
             "forall E, valid_cell (fl E) = true -> (forall i, fault E i = NoFault) ->\n"
             "  result E generated = Ok \\/ result E generated = ExnInvalid",
             "exact (run_completes_sound_lemma generated ob_completes).")
+        # ... and not by rejecting: every valid cell of the grid ends Ok (under the data valuation tied to real runs)
+        if val("valid_cells_complete", ex["valid_cells_complete"]):
+            thm("gen_valid_cells_end_ok",
+                "forall c, valid_cell (cell_flags c) = true -> result (cenv generated c None) generated = Ok",
+                "intros c Hv. exact (proj1 (valid_cells_complete_lemma generated ob_valid_cells_complete c "
+                "(all_cells_complete c) Hv)).")
     else:
         if val("has_failing_cell", ex["has_failing_cell"]):
             thm("gen_run_completes_refuted", "exists E, fails_to_complete generated E",
@@ -407,6 +487,10 @@ def static_part(run: core.Run):
         run.obligation("effects2coq: the trainer source parses", False, repr(e)[:300])
         return None, None, {"unsupported": {"why": repr(e)}}
     run.obligation("effects2coq: the trainer source is inside the recognised fragment (fail-closed translator)", True)
+    unk = unknown_rejection_sites(info)
+    run.obligation("every explicit `raise` of the trainer is guarded by a recognised data-dependent condition (chunks "
+                   "to re-use exist, model-type chain, profiler name) or by named flags only: no new way of rejecting "
+                   "a configuration", not unk, json.dumps(unk)[:600])
     try:
         st = tr.self_test(core.REPO)
         run.coverage["translator_self_test"] = st
@@ -519,12 +603,17 @@ CHUNK_DIRS = {"chunks/train_chunks": "train_chunks", "chunks/val_chunks": "val_c
 
 
 def observed_trace(res: dict):
-    """canonical observable trace of a real run: writes (class, by-constructor, key), removals, logins."""
+    """canonical observable trace of a real run: writes (class, by-constructor, key), removals, logins, and the
+    moments at which a chunk directory that held no file starts to hold one (`mk`; what is there when the observed
+    run starts — re-used chunks — is the initial state, not an event)."""
     tr_, ctor = [], True
     lit = res["spec"]["framework"] == "litdata"
     for ev in res["events"]:
         k = ev["kind"]
-        if k == "init_done":
+        if k == "mkchunks":
+            if ev["file"] in CHUNK_DIRS:
+                tr_.append(["mk", ("lit_" if lit else "") + CHUNK_DIRS[ev["file"]]])
+        elif k == "init_done":
             ctor = False
         elif k == "omegaconf.save":
             tr_.append(["w", classify_path(ev["file"]), ctor, bool(ev.get("key_in_file"))])
@@ -552,7 +641,10 @@ def expected_prefix(spec, m_t):
         if at == "after_initial" and o[0] == "w" and o[1] == "initial":
             return m_t[:i + 1]
         if at == "dataset" and o[0] == "w" and o[1] == "training" and o[2] is False:
-            return m_t[:i + 1]
+            j = i + 1
+            while j < len(m_t) and m_t[j][0] == "mk":      # the data-loader method returned: its chunks exist
+                j += 1
+            return m_t[:j]
     return m_t
 
 
@@ -562,12 +654,22 @@ def observed_outcome(res: dict) -> str:
     return "exception"
 
 
-def canon_model(m):
+def canon_model(m, existing=False):
+    """canonical form shared with `observed_trace`: repeated checkpoint writes are one event; of the `mk t` events
+    (chunk files of kind t are created / read) only those that turn an empty directory into a non-empty one are kept
+    — `existing`: the chunks in use are there before the run starts (re-use)."""
     obs, outcome = m
     out = []
+    present = {}
     for o in obs:
         if out and o[0] == "w" and o[1] == "ckpt" and out[-1] == o:
             continue
+        if o[0] == "mk":
+            if present.get(o[1], existing):
+                continue
+            present[o[1]] = True
+        if o[0] == "rm":
+            present[o[1]] = False
         out.append(o)
     return out, ("exception" if outcome in ("exception", "keyboard_interrupt") else outcome)
 
@@ -628,14 +730,15 @@ def oracle(res: dict) -> list[dict]:
     raised = res.get("raised") or {}
     f15_crash = (sel_F15(c) and res.get("outcome") == "raised" and raised.get("type") == "ConfigAttributeError"
                  and "run_id" in raised.get("msg", "") and raised.get("phase") == "train")
-    # finding F131: chunk re-use with part_names / edges left to "take them from the labels": the constructor
-    # fills them in only when it creates the chunks, so the lightning module is built with part_names = None
+    # finding F131 (fixed in 373d053; the shape of a regression): chunk re-use with part_names / edges left to "take
+    # them from the labels": the constructor filled them in only when it created the chunks, so the lightning
+    # module was built with part_names = None
     reuse_crash = (bool(spec.get("use_existing")) and spec["model_type"] != "centroid"
                    and not (spec.get("opts") or {}).get("explicit_names")
                    and res.get("outcome") == "raised" and raised.get("phase") == "train"
                    and raised.get("type") == "TypeError" and "NoneType" in raised.get("msg", ""))
-    # finding F132: BottomUpDataset reads labels.skeletons although re-use runs pass labels=None
-    reuse_bu_crash = (outside_reuse_domain(spec) == SEL_REUSE_BU and res.get("outcome") == "raised"
+    # finding F132 (fixed in 8b62cf0): BottomUpDataset read labels.skeletons although re-use runs pass labels=None
+    reuse_bu_crash = (reuse_finding_domain(spec) == SEL_REUSE_BU and res.get("outcome") == "raised"
                       and raised.get("phase") == "train" and raised.get("type") == "AttributeError"
                       and "skeletons" in raised.get("msg", ""))
     known_crash = SEL_F15 if f15_crash else SEL_REUSE if reuse_crash else SEL_REUSE_BU if reuse_bu_crash else None
@@ -713,14 +816,19 @@ def oracle(res: dict) -> list[dict]:
                     fails.append({"clause": "final_config_records_tracking_run", "selector": None,
                                   "detail": f"tracking on, run(s) {ids} were opened, but training_config.yaml has "
                                             f"run_id = {None if rid is KeyError else rid!r}"})
-    # (o4) checkpoint iff requested (a run that reached fit)
+    # (o4) checkpoint iff checkpointing is on (a run that reached the end of fit).  "On" = save_ckpt AND the
+    #      ModelCheckpoint options ask for a file (`ckpt_requested`): save_top_k = 0 with save_last None / False is
+    #      the documented way of asking for zero checkpoints ("If save_top_k == 0, no models are saved")
+    want_ckpt = ckpt_requested(spec)
     reached_fit_end = res.get("outcome") == "ok" or f15_crash or (injected and flt["at"] == "fit_return")
     if swallowed_ki and flt["at"] == "fit_start":
         reached_fit_end = False
     has = bool(res.get("ckpt_files"))
-    if (has and not spec["save_ckpt"]) or (spec["save_ckpt"] and reached_fit_end and not has):
+    if (has and not want_ckpt) or (want_ckpt and reached_fit_end and not has):
         fails.append({"clause": "ckpt_iff_requested", "selector": None,
-                      "detail": f"save_ckpt={spec['save_ckpt']} but checkpoint files = {res.get('ckpt_files')}"})
+                      "detail": f"save_ckpt={spec['save_ckpt']}, model_ckpt.save_top_k={save_top_k_of(spec)}, "
+                                f"model_ckpt.save_last={save_last_of(spec)} but checkpoint files = "
+                                f"{res.get('ckpt_files')}"})
     # (o5) no chunk files when their deletion is requested
     #      — whatever framework produced them (np chunks, litdata chunks, np chunks of the memory fallback),
     #      created by this run or re-used; not demanded of a process that died outside train()'s try
@@ -748,6 +856,8 @@ def choose_specs(run: core.Run, model_by_cell: dict | None):
         o = draw_opts(rng, s)
         if o:
             s["opts"] = o
+    # save_top_k x save_last: all 12 combinations over the runs of the cover, those with save_ckpt on first
+    assign_ckpt_options(rng, specs)
     # every run set has a YAML-loaded configuration with `preprocessing.scale: null` (the constructor
     # normalises it to 1.0 AFTER the initial save) and one whose crop size is computed by the constructor
     for s in specs:
@@ -761,10 +871,6 @@ def choose_specs(run: core.Run, model_by_cell: dict | None):
     have = set()
 
     def add(s, witness=False):
-        # re-use runs inside the domain spell the head's part names / edges out: with use_existing_chunks the
-        # constructor does not fill them in from the labels (that omission is finding F131, replayed from the corpus)
-        if s.get("use_existing") and not witness:
-            s.setdefault("opts", {})["explicit_names"] = True
         if spec_id(s) not in have:
             specs.append(s)
             have.add(spec_id(s))
@@ -782,14 +888,22 @@ def choose_specs(run: core.Run, model_by_cell: dict | None):
     if uncovered or not quick:
         for wm in (None, "online"):
             add(mk_spec(pick(MODEL_TYPES), pick(FRAMEWORKS[:2]), True, coin(), coin(), wandb_mode=wm))
-        add(mk_spec(pick(MODEL_TYPES[:3]), "torch_dataset_np_chunks", coin(), coin(), coin(), delete_chunks=True,
+        add(mk_spec(pick(MODEL_TYPES), "torch_dataset_np_chunks", coin(), coin(), coin(), delete_chunks=True,
                     use_existing=True))
-        add(mk_spec(pick(MODEL_TYPES[:3]), pick(FRAMEWORKS[1:]), False, False, coin(), delete_chunks=False,
+        add(mk_spec(pick(MODEL_TYPES), pick(FRAMEWORKS[1:]), False, False, coin(), delete_chunks=False,
                     use_existing=True))
         add(mk_spec(pick(MODEL_TYPES), "litdata", coin(), coin(), coin(), delete_chunks=True))
         add(mk_spec(pick(MODEL_TYPES), "torch_dataset", coin(), coin(), coin(), delete_chunks=True, mem_fallback=True))
         add(mk_spec(pick(MODEL_TYPES), "torch_dataset", False, False, coin(), delete_chunks=False, mem_fallback=True))
         add(mk_spec(pick(MODEL_TYPES), "torch_dataset_np_chunks", False, False, coin(), delete_chunks=False))
+    # checkpointing on with save_top_k = 0: zero checkpoints asked for (save_last None / False) -> none may be
+    # written; last.ckpt only (save_last True) -> it must be written.  Both are in EVERY run set.
+    ck_runs = [s_ for s_ in specs if s_["save_ckpt"] and not fault_of(s_) and save_top_k_of(s_) == 0]
+    if not any(save_last_of(s_) is not True for s_ in ck_runs):
+        add(mk_spec(pick(MODEL_TYPES), "torch_dataset", False, True, coin(),
+                    opts={"save_top_k": 0, "save_last": pick([None, False])}))
+    if not any(save_last_of(s_) is True for s_ in ck_runs):
+        add(mk_spec(pick(MODEL_TYPES), "torch_dataset", coin(), True, coin(), opts={"save_top_k": 0, "save_last": True}))
     # faults inside train()'s try (`finally` must still save the config and delete the chunks) ...
     F = lambda at, kind="runtime": {"at": at, "kind": kind}
     add(mk_spec(pick(MODEL_TYPES), "torch_dataset_np_chunks", False, True, False, fault=F("fit_return")))
@@ -831,10 +945,12 @@ def choose_specs(run: core.Run, model_by_cell: dict | None):
                 rank = lambda k: (k[2] == "KLit", k[6], k[7], k)
                 c = dict(zip(CELL_FIELDS, sorted(keys, key=rank)[0][:-1]))
                 fw = {v: k for k, v in FW_CELL.items()}[c["fw"]]
-                add(mk_spec(pick(MODEL_TYPES[:3] if c["existing"] else MODEL_TYPES), fw, c["wandb"], c["ckpt"],
+                add(mk_spec(pick(MODEL_TYPES), fw, c["wandb"], c["ckpt"],
                             c["structured"], c["delete"],
                             wandb_mode="offline" if c["offline"] else pick([None, "online"]),
-                            use_existing=c["existing"], mem_fallback=c["memfb"]))
+                            use_existing=c["existing"], mem_fallback=c["memfb"],
+                            opts={"save_top_k": 0 if c["topk0"] else pick(SAVE_TOP_K[1:]),
+                                  "save_last": True if c["savelast"] else pick([None, False])}))
                 n_added += 1
     return specs
 
@@ -843,16 +959,17 @@ def check(run: core.Run) -> int:
     run.build_and_prove(PROP_FILES)
     pre, vals, info = static_part(run)
     run.coverage["translator"] = {k: info.get(k) for k in ("paths", "undeclared", "assumptions", "notes", "sha",
-                                                           "unsupported") if k in info}
+                                                           "unsupported", "raise_sites", "mk_sites", "ckpt_guard")
+                                  if k in info}
     run.coverage["checkers_on_generated_term"] = vals
 
-    # model traces for every cell (384, no fault); fault modes are evaluated for the chosen runs below
+    # model traces for every cell (1536, no fault); fault modes are evaluated for the chosen runs below
     model_by_cell = None
     if pre is not None and vals is not None:
         cells = all_cells()
         try:
-            outs = core.coq_eval_sharded(pre, [cell_term(c, 0) for c in cells], "run_cell generated", "rrun", shard=128)
-            model_by_cell = {cell_key(c, 0): canon_model(o) for c, o in zip(cells, outs)}
+            outs = core.coq_eval_sharded(pre, [cell_term(c, 0) for c in cells], "run_cell generated", "rrun", shard=256)
+            model_by_cell = {cell_key(c, 0): canon_model(o, c["existing"]) for c, o in zip(cells, outs)}
         except core.CoqEvalError as e:
             run.obligation("model traces of the generated term evaluate", False, str(e)[-600:])
 
@@ -867,7 +984,7 @@ def check(run: core.Run) -> int:
         if todo:
             try:
                 outs = core.coq_eval_sharded(pre, list(todo.values()), "run_cell generated", "rrun", shard=128)
-                model_by_cell.update({k: canon_model(o) for k, o in zip(todo, outs)})
+                model_by_cell.update({k: canon_model(o, k[CELL_FIELDS.index("existing")]) for k, o in zip(todo, outs)})
             except core.CoqEvalError as e:
                 run.obligation("model traces of the generated term evaluate (fault modes)", False, str(e)[-600:])
                 model_by_cell = None
@@ -909,10 +1026,8 @@ def check(run: core.Run) -> int:
         fails = oracle(res)
         # correspondence with the model
         mkey = cell_key(c, fault_mode(spec))
-        # recorded assumption of the model: on chunk re-use the head's part_names / edges are supplied (the
-        # constructor fills them in only when it creates chunks); the corpus witness of F131 violates it
-        outside_model = outside_reuse_domain(spec) is not None
-        if model_by_cell is not None and not outside_model:
+        # every run is inside the model (round 4: the re-use cells of the repaired findings F131 / F132 included)
+        if model_by_cell is not None:
             m_t, m_o = model_by_cell[mkey]
             flt = fault_of(spec)
             if flt and flt["at"] in PREFIX_FAULTS:
@@ -934,8 +1049,8 @@ def check(run: core.Run) -> int:
                     "oracle_failures": [(f["clause"], f["selector"]) for f in fails][:6], "wall_s": res.get("wall_s")},
                    limit=4)
     if model_by_cell is not None:
-        run.obligation("correspondence: observed (file, by-constructor, key-present)/removal/login/outcome sequence == "
-                       "model trace of the GENERATED term (cut at the fault point for faults outside try), on every "
+        run.obligation("correspondence: observed (file, by-constructor, key-present)/chunk creation/removal/login/outcome "
+                       "sequence == model trace of the GENERATED term (cut at the fault point for faults outside try), on every "
                        "real run", disagreements == 0, f"{disagreements} of {len(results)} runs disagree")
 
     # ---- what the per-run obligations mean for the property
@@ -961,14 +1076,18 @@ def check(run: core.Run) -> int:
                 run.obligation("chunk deletion is reached on all paths, or every exception is excused by selector F15",
                                False, f"checker values: {vals}")
         for nm in ("initial_config_contract", "final_config_contract", "ckpt_contract", "chunk_guard_contract",
-                   "flag_determined", "final_config_contract_faults"):
+                   "mk_guard_contract", "flag_determined", "final_config_contract_faults"):
             run.obligation(f"{nm} generated = true", bool(vals[nm]))
         # the tracking-run id: F15 (undeclared run_id on a structured config) makes the mutation raise, which
         # the completion checker reports; the id contract itself is judged when completion holds
         if vals["completes"]:
+            run.obligation("valid_cells_complete generated = true: every valid cell of the grid ends Ok, not by an "
+                           "explicit rejection (`completes` alone accepts a rejection)", bool(vals["valid_cells_complete"]))
+            run.obligation("chunk_contract generated = true (removal after the last creation, on all paths)",
+                           bool(vals["chunk_contract"]))
             run.obligation("run_id_contract generated = true", bool(vals["run_id_contract"]))
             run.obligation("same_on_cells generated (reference true true) = true: the frozen snapshot of Part B "
-                           "has the observable behaviour of the current tree on all 384 cells x 5 fault modes",
+                           "has the observable behaviour of the current tree on all 1536 cells x 5 fault modes",
                            bool(vals["same_as_reference"]))
 
     run.coverage.update({
@@ -991,11 +1110,13 @@ def check(run: core.Run) -> int:
         "for the key, raw and encoded)",
     ]
     run.assumptions += (info.get("assumptions") or [])
-    run.assumptions.append("chunk re-use (use_existing_chunks) cells: the head's part_names / edges are supplied "
-                           "explicitly; with None the constructor does not fill them in on re-use and train() fails "
-                           "(finding F131); np-chunk re-use is not generated for bottomup, whose dataset "
-                           "dereferences labels=None (finding F132); both corpus witnesses are replayed on every "
-                           "run, outside the effect model")
+    run.assumptions.append("'a checkpoint when checkpointing is on' is read as: save_ckpt AND the ModelCheckpoint "
+                           "options ask for a file (save_top_k != 0 or save_last); save_ckpt with save_top_k = 0 and "
+                           "save_last None / False is the documented request for zero checkpoints, and none is written")
+    run.assumptions.append("Lightning's ModelCheckpoint writes a top-k file iff save_top_k != 0 and last.ckpt iff "
+                           "save_last (translator contract, cross-checked by the real runs over all 12 option values)")
+    run.assumptions.append("`shutil.rmtree(..., ignore_errors=True)`: a chunk removal that fails is silent in the code "
+                           "and counts as done in the model (the oracle looks at the files left)")
     return run.finish()
 
 
